@@ -12,10 +12,12 @@ class C18(Check):
     prop = "C18"
     required_theorems = ["wildcard_match_spec", "permission_match_spec", "targets_subset_allowed",
                          "no_permission_rejects_first", "forbidden_by_name_is_error",
-                         "forbidden_single_name_is_denied", "joined_access_subset_allowed", "handler_targets_subset_allowed", "result_independent_of_visit_order",
-                         "handler_permission_table_matches_source",
+                         "forbidden_single_name_is_denied", "joined_access_subset_allowed", "handler_targets_subset_allowed",
+                         "result_independent_of_visit_order", "handler_permission_table_matches_source",
                          "model_query_meets_spec", "model_access_meets_spec", "model_grant_meets_spec",
-                         "converse_fails_by_overrestriction"]
+                         "converse_fails_by_overrestriction",
+                         "unrepaired_targets_subset_allowed_of_isoVisit", "unrepaired_shared_frame_returns_forbidden",
+                         "unrepaired_shared_frame_depends_on_visit_order"]
     technique = ("Lean 4 proof (decision logic stated outright: every object returned on every addressing path satisfies Allowed; "
                  "rejection before any provider call; forbidden name => error; matcher = declarative wildcard language) over a hand-written "
                  "model of FilterUtility::HasPermission/GetFilterTargets; correspondence by differential execution of the real functions "
@@ -31,7 +33,7 @@ class C18(Check):
                   "specification predicate is evaluated on the implementation's own observations")
     level_note = ("Trusted: Lean kernel (+ propext, Classical.choice, Quot.sound); the model's correspondence being sampled; harness/driver; the "
                   "harness's own evaluation of the generated filter expressions (truth tables are oracle inputs). Not modelled: the DSL "
-                  "evaluating the filters, permission filters that raise errors, HTTP parsing/authentication (ApiUser::GetByAuthHeader/GetByClientCN), "
+                  "evaluating the filters, HTTP parsing/authentication (ApiUser::GetByAuthHeader/GetByClientCN), "
                   "the create, config, events and debug handlers (their permission strings are in the generated table and used in direct calls, "
                   "but they are not dispatched); for templates/variables/types/status only grant/refusal is compared (their targets are not "
                   "config objects); actions other than reschedule-check/remove-acknowledgement are not dispatched.")
@@ -50,12 +52,13 @@ class C18(Check):
         "order, nullable joins command_endpoint/check_period in the filters) are what would expose a dependence on the visit order",
         "the request requires a non-empty permission (an empty required permission is granted by filterutility.cpp:149-150; no handler uses one)",
         "permission strings, patterns and object names are ASCII (String::ToLower/tolower in the C locale)",
-        "permission filters do not raise errors when evaluated: generated permission filters only use obj/host and the joins, which exist "
-        "for hosts and services. EXCLUDED BY THIS (open finding candidate F-C18a, reproduced on the unchanged tree with a probe build, "
-        "_work/scratch/c18/probe/p.ops): a permission filter that mentions `service` under a permission that also covers hosts "
-        "(actions/*, two-type QueryDescription) raises on a host in isolation, but in a request that first names an allowed service and "
-        "then enumerates hosts (service=<allowed>&type=Host&filter=true) it is evaluated with the previous object's `service` still bound "
-        "in the shared permission frame and the hosts are returned",
+        "F-C18a (fixed by bce4be0: the permission frame gets an empty namespace per object): permission filters may read names bound by "
+        "another object kind (`service` on hosts) and may raise errors; the model of the code evaluates them per object, the variant "
+        "before the repair is kept as filterTargetsUnrepaired with kernel-checked statements about it; the witnesses are replayed on the "
+        "implementation on every run as passing regression cases (corpus/C18/seeds.ops), and the generator keeps producing requests of "
+        "that shape (service named, hosts enumerated, permission filter reading `service`)",
+        "for Host and Service the only name of the permission frame that a later visit does not rebind is `service` (same navigation "
+        "fields otherwise), so the frame is modelled by the binding of `service`; other object kinds (Comment, Downtime, ...) are not in the inventory",
         "the query dictionary is non-null and `hosts`/`services` hold arrays (what HttpUtility::FetchRequestParameters produces)",
     ]
 
@@ -114,7 +117,7 @@ class C18(Check):
         if bad:
             shown = [self._line(save, int(core.parse_kv(b)["line"])) for b in bad[:5]]
             res.corr_failures.append(runner.Finding("corr", "protocol", shown, {"driver": bad[:5]}))
-        for prefix, kind, dest, limit in (("SPECFAIL", "spec", res.spec_failures, 4), ("MISMATCH", "corr", res.corr_failures, 3)):
+        for prefix, kind, dest, limit in (("SPECFAIL", "spec", res.spec_failures, 6), ("MISMATCH", "corr", res.corr_failures, 3)):
             seen = res.extra.setdefault("_seen_" + prefix, set())
             for l in lines:
                 if not l.startswith(prefix) or len(seen) >= limit:
@@ -131,7 +134,7 @@ class C18(Check):
                 self._fails(harness, driver, hdr + ops, prefix, want)
                 shown = open(self.work("shrink.out")).read().splitlines()
                 what = ("spec:C18:" + key) if kind == "spec" else key
-                dest.append(runner.Finding(kind, what, shown, {"driver": l}))
+                dest.append(runner.Finding(kind, what, shown, {"driver": l}, {"clause": key}))
 
     def correspondence(self, tier, seed, harness, driver):
         res = runner.Result()
